@@ -238,18 +238,19 @@ type verifC11Sub struct {
 	hasView   bool
 	baseEpoch int // epoch of the snapshot the view was built from
 
-	this       verifC11Cand   // the store as it was at Subscribe
-	hinted     bool           // the cache model predicts that the snapshot comes from the snapshot cache
-	cands      []verifC11Cand // store versions the next snapshot may legitimately show
-	matched    []verifC11Cand // those it did show
-	served     []verifC11Cand // every snapshot that may have been served to it (for naming the root cause of later anomalies)
-	subEpoch   int
-	pendingSub int
-	resumed    bool
-	mustClose  string // "acl" | "restore": the next Next must return the close error
-	after      int    // deliveries after the snapshot / after the resume
-	eligible   bool   // meets the first half of the non-triviality rule
-	excused    bool   // a tolerated known finding was counted for it (ServiceList kinds): compared modulo taint
+	this        verifC11Cand   // the store as it was at Subscribe
+	hinted      bool           // the cache model predicts that the snapshot comes from the snapshot cache
+	cands       []verifC11Cand // store versions the next snapshot may legitimately show
+	matched     []verifC11Cand // those it did show
+	oldEpochKey string         // set once an event of a pre-restore commit (one the restored snapshot contains) was applied to a view built from the restored store
+	served      []verifC11Cand // every snapshot that may have been served to it (for naming the root cause of later anomalies)
+	subEpoch    int
+	pendingSub  int
+	resumed     bool
+	mustClose   string // "acl" | "restore": the next Next must return the close error
+	after       int    // deliveries after the snapshot / after the resume
+	eligible    bool   // meets the first half of the non-triviality rule
+	excused     bool   // a tolerated known finding was counted for it (ServiceList kinds): compared modulo taint
 }
 
 type verifC11World struct {
@@ -606,6 +607,7 @@ func (w *verifC11World) subscribe(id int, q verifC11Q, token, authz string, old 
 		s.after = 0
 		s.matched = nil
 		s.served = nil
+		s.oldEpochKey = ""
 	}
 	pbreq := q.pbRequest(verifC11Secret(token), index)
 	sreq, err := state.PBToStreamSubscribeRequest(pbreq, pbreq.EnterpriseMeta())
@@ -1214,6 +1216,7 @@ func (w *verifC11World) onSnapshot(s *verifC11Sub, idx uint64) bool {
 	s.served = append([]verifC11Cand(nil), s.cands...)
 	s.lastIdx, s.hasView = idx, true
 	s.baseEpoch = s.matched[0].ver.epoch
+	s.oldEpochKey = ""
 	s.after = 0
 	return true
 }
@@ -1276,6 +1279,16 @@ func (w *verifC11World) onEvent(s *verifC11Sub, i uint64) bool {
 		return w.tolerate(s, key, "sub#%d %s: its view was built from the restored store, yet it is sent the event of commit %d, which was made before the restore and is not part of the restored state",
 			s.id, s.q.id(), i)
 	}
+	if ver.epoch < s.baseEpoch {
+		// The commit is part of the restored history, so its events normally describe the restored state too. But a
+		// restore re-derives denormalised fields (e.g. HealthCheck.ServiceTags, which the live store refreshes only
+		// when the check itself is written): from here on a difference between view and restored store has the
+		// known mechanism "batch/buffer item of the old store delivered to a subscription of the restored store".
+		s.oldEpochKey = verifC11KeyPreRestoreB
+		if w.atRestoreQueued[i] {
+			s.oldEpochKey = verifC11KeyPreRestoreQ
+		}
+	}
 	if i < s.lastIdx {
 		key := w.classify(s, i, ver, "C11/index-regress")
 		return w.tolerate(s, key, "sub#%d %s: event with index %d delivered after index %d (batches unpublished when its snapshot was built: %v); view vs query@%d:%s",
@@ -1291,6 +1304,9 @@ func (w *verifC11World) onEvent(s *verifC11Sub, i uint64) bool {
 		key := w.explained(s, got, exp.Items, ver, fallback)
 		if key == fallback {
 			key = w.classify(s, i, ver, fallback)
+		}
+		if key == fallback && s.oldEpochKey != "" && ver.epoch >= s.baseEpoch {
+			key = s.oldEpochKey
 		}
 		return w.tolerate(s, key, "sub#%d %s: after the event with index %d the view differs from the direct query as of raft index %d (unpublished at snapshot: %v):%s",
 			s.id, s.q.id(), i, i, verifC11QueuedOf(s), verifC11Diff(got, exp.Items))
@@ -1333,7 +1349,11 @@ func (w *verifC11World) quiescent(s *verifC11Sub) {
 	case s.baseEpoch < s.subEpoch && s.resumed:
 		key = verifC11KeyResumeRest
 	default:
+		fallback := key
 		key = w.explained(s, got, exp.Items, w.cur, key)
+		if key == fallback && s.oldEpochKey != "" {
+			key = s.oldEpochKey
+		}
 	}
 	w.tolerate(s, key, "sub#%d %s: every committed batch is published and the subscription has nothing more to deliver (last index %d), but the view differs from the direct query (index %d):%s",
 		s.id, s.q.id(), s.lastIdx, exp.Idx, verifC11Diff(got, exp.Items))
